@@ -68,7 +68,8 @@ pub(crate) struct FrequencyCounter {
 
 impl FrequencyCounter {
     pub(crate) fn new(counters: TotalCounters) -> FrequencyCounter {
-        let total_counters = Self::next_power_2(counters);
+        // each byte of a row packs two 4-bit counters: size for at least two counters so that `counters = 1` gets a non-empty row
+        let total_counters = Self::next_power_2(counters).max(2);
         info!("Initializing FrequencyCounter with total counters {}", counters);
         FrequencyCounter {
             matrix: Self::matrix(total_counters),
